@@ -72,9 +72,7 @@ def run(ctx):
     RL_ = (_methods(f, D + "Reader", "reset_and_limit") or [D + "Reader::<R>::reset_and_limit"])[0]
     ctx.floor("R-CHK", "raw event pullers in xml::decode", len(raw), 6)
     ctx.floor("R-CHK", "limit-resetting wrappers in xml::decode", len(limited), 4)
-    consts = {k: v.get("v") for k, v in f.consts.items() if k in ("rrdp::MAX_FILE_SIZE", "rrdp::MAX_HEADER_SIZE")}
-    ctx.ob("R-CHK", "limit-constants-nonzero", len(consts) == 2 and all(v and v > 0 for v in consts.values()),
-           "MAX_HEADER_SIZE and MAX_FILE_SIZE are non-zero (0 would disable the limit)", detail=consts)
+    lim_values = {}
 
     # ---- C09.a limit discipline in the RRDP parsers ----------------------------------
     nbodies = 0
@@ -92,7 +90,9 @@ def run(ctx):
         # limits are the named constants
         for c in lims:
             a = K.arg_renders(c)
-            ok = a[-1] in ("rrdp::MAX_HEADER_SIZE", "rrdp::MAX_FILE_SIZE") or re.match(r"^[1-9]\d*$", a[-1]) is not None
+            lv = K.fold_consts(strip_deep(K.arg_terms(c)[-1]), f.consts)
+            ok = lv[0] == "const" and isinstance(lv[1], int) and not isinstance(lv[1], bool) and lv[1] > 0
+            lim_values.setdefault(lv[1] if lv[0] == "const" else render(lv), []).append(c.where())
             ctx.ob("R-CHK", "%s:limit-constant@%s" % (short(root_fn(f, n)), short(c.res)), ok,
                    "%s limits %s with a non-zero constant" % (short(root_fn(f, n)), short(c.res)), where=c.where(), detail=a[-1])
         for c in pulls:
@@ -112,6 +112,9 @@ def run(ctx):
                    "the element loop in %s resets the byte counter on every iteration (limit per element, not per document)"
                    % short(root_fn(f, n)), where=b.where(min(comp)))
     ctx.floor("R-CHK", "RRDP bodies pulling XML events", nbodies, 4)
+    ctx.ob("R-CHK", "limit-constants-nonzero", len(lim_values) >= 2 and all(isinstance(v, int) and v > 0 for v in lim_values),
+           "the header and file size limits the RRDP parsers pass are non-zero constants (0 would disable the limit)",
+           detail={str(k): len(v) for k, v in lim_values.items()})
     # ObjectReader::process is only called right after a limited pull
     for c in calls_to(f, lambda c: (c.res or "").startswith("rrdp::ObjectReader") and (c.res or "").endswith("::process")):
         b = c.body
@@ -295,9 +298,10 @@ def run(ctx):
                     rnames.add(w)
             for c in b.calls():
                 if c.name in ("eq", "ne") and not b.is_cleanup(c.bb):
-                    for a in K.arg_renders(c):
-                        if re.match(r"^rrdp::[A-Z_]+$", a):
-                            rnames.add(const_local(a))
+                    for a in K.arg_terms(c):
+                        a = strip_deep(a)
+                        if a[0] == "cdef" or (a[0] == "call" and ((a[3] or {}).get("res") or "").startswith("xml::decode::Name")):
+                            rnames.add(_name_bytes(f, a))
         ctx.ob("R-SIB", "%s:element-names" % label, bool(wnames) and None not in wnames and wnames <= rnames,
                "every element name written for the %s file is a name its parser matches" % label,
                detail={"written": sorted(x.decode() if x else "?" for x in wnames), "parsed": sorted(x.decode() for x in rnames if x)})
@@ -326,6 +330,14 @@ def run(ctx):
         mp = MustPass(f, lambda c: False, guard_fn=lambda bd, s, bb: guard_edges(bd, s, bb, g), name="snapshot authority",
                       ret_guard=lambda t: _ret_is_literal(t, g))
         ok = mp.holds(hb.name) and _ret_guard_final(hb, lambda t: _ret_is_literal(t, g))
+        if not ok:
+            # the snapshot URI as one more element of an iteration all of whose elements are tested
+            # (`once(snapshot).chain(deltas).all(..)`)
+            def snap_lit(shape, elem, bd):
+                if shape != "single" or not re.match("^%s$" % snap, elem):
+                    return None
+                return K.pred_lit(r"^Https::eq_authority\((?:%s, %s|%s, %s)\)$" % (base, re.escape(elem), re.escape(elem), base))
+            ok = _forall_deltas(f, hb, snap_lit, about_list=False)[0]
         ctx.ob("R-GRD", "has_matching_origins:snapshot", ok, "true only if the snapshot URI has the base's authority", where=hb.loc,
                detail=None if ok else K.why(f, mp, hb.name))
         # deltas: every element of the delta list is tested (loop, all / any / find …); an absent (Err) or empty list has
@@ -333,7 +345,9 @@ def run(ctx):
         def origin_lit(shape, elem, bd):
             if shape != "each":
                 return None
-            return K.pred_lit(r"^Https::eq_authority\((?:%s, %s|%s, %s)\)$" % (base, _uri_of(re.escape(elem)), _uri_of(re.escape(elem)), base))
+            # the element itself, or already its URI (`.map(|d| d.uri())` in front of the quantifier)
+            u = re.escape(elem) if re.match("^%s$" % _uri_of("‹e›"), elem) else _uri_of(re.escape(elem))
+            return K.pred_lit(r"^Https::eq_authority\((?:%s, %s|%s, %s)\)$" % (base, u, u, base))
         okd, det = _forall_deltas(f, hb, origin_lit)
         ctx.ob("R-GRD", "has_matching_origins:every-delta", okd,
                "true only if no delta URI has another authority (every delta is tested)", where=hb.loc, detail=None if okd else det)
@@ -471,11 +485,20 @@ def _unmut(t):
     return t
 
 
+def _deltas_field(f):
+    """name of the field of NotificationFile that holds the list of deltas (found by its type)."""
+    adt = f.adts.get("rrdp::NotificationFile")
+    for fl in (adt["variants"][0]["fields"] if adt and adt.get("variants") else ()):
+        if "DeltaInfo" in fl["ty"]:
+            return fl["name"]
+    return "deltas"
+
+
 def _is_delta_list(f, t, depth=0):
     """term denotes the notification's list of deltas (the Ok payload of `self.deltas`, directly or via an accessor of
     `self` every result of which is that payload or an empty slice)."""
     t = _unmut(t)
-    if render(t) == "self.deltas↓Ok.0":
+    if render(t) == "self.%s↓Ok.0" % _deltas_field(f):
         return True
     if t[0] == "call" and len(t[2]) == 1 and render(t[2][0]) == "self" and depth < 2:
         cb = f.body((t[3] or {}).get("res") or t[1])
@@ -515,6 +538,43 @@ def _receiver_shape(f, t):
     return None
 
 
+def _sources(f, t, depth=0):
+    """What an iterator expression yields, as a list of sources [(shape, element text)]: `chain(a, b)` yields what a and b
+    yield, `once(x)` the single value x (shape 'single', text = x), `map(it, g)` the image under g of what `it` yields
+    (g read in the vocabulary of the iteration: its parameter is the element), anything else is classified by
+    _receiver_shape.  None if some part is not understood."""
+    t = _unmut(t)
+    if depth > 4:
+        return None
+    if t[0] == "call":
+        name = (t[3] or {}).get("name")
+        a = t[2]
+        if name == "chain" and len(a) == 2 and (t[3] or {}).get("trait") == "std::iter::Iterator":
+            x, y = _sources(f, a[0], depth + 1), _sources(f, a[1], depth + 1)
+            return None if x is None or y is None else x + y
+        if name == "once" and len(a) == 1 and re.search(r"iter::(sources::once::)?once$", (t[3] or {}).get("res") or ""):
+            return [("single", render(strip_deep(a[0])))]
+        if name == "map" and len(a) == 2 and (t[3] or {}).get("trait") == "std::iter::Iterator" and strip(a[1])[0] == "closure":
+            inner = _sources(f, a[0], depth + 1)
+            if inner is None:
+                return None
+            out = []
+            for shape, elem in inner:
+                gb, gm = K.closure_env(f, strip(a[1]), elem)
+                if gb is None or gb.cycles_sccs():
+                    return None
+                if gb.arg_count >= 2 and not gb.local_name(2):
+                    gm[("param", "_2")] = elem
+                vals = success_values(gb)
+                if len(vals) != 1:
+                    return None
+                with _symmod.substituting(gm):
+                    out.append((shape, render(strip_deep(vals[0][2]))))
+            return out
+    shape = _receiver_shape(f, t)
+    return None if shape is None else [(shape, "‹e›")]
+
+
 def _carried_serials(f, b):
     """names of the locals that carry "the previous element's serial" round a loop: assigned more than once, and only
     ever the serial of an element of the delta list."""
@@ -536,7 +596,7 @@ def _carried_serials(f, b):
                 break
             # an element: list[i] / Index::index(list, i) / the item of an iteration over (part of) the list
             r = render(fld)
-            if not ("self.deltas↓Ok.0" in r or re.search(r"\bNotificationFile::\w+\(self\)", r)):
+            if not ("self.%s↓Ok.0" % _deltas_field(f) in r or re.search(r"\bNotificationFile::\w+\(self\)", r)):
                 ok = False
                 break
         if ok:
@@ -590,7 +650,7 @@ def _lit_guard(lit):
     return g
 
 
-def _forall_deltas(f, b, lit_for, need_update=None):
+def _forall_deltas(f, b, lit_for, need_update=None, about_list=True):
     """(ok, detail): `b` returns true only if the delta list is absent / empty or every element (adjacent pair) of it
     satisfies the literal.  lit_for(shape, element text, body) -> orderlogic literal, or None when the shape does not
     suit the property.  need_update: names of the carried locals (tail shape): they must be re-assigned on every
@@ -604,15 +664,28 @@ def _forall_deltas(f, b, lit_for, need_update=None):
 
     # -- combinator form ------------------------------------------------------------------------------------------
     for c in b.calls():
-        if c.name not in _QUANT or c.trait != "std::iter::Iterator" or len(c.args) != 2 or b.is_cleanup(c.bb):
+        pairwise = c.name == "is_sorted_by" and (c.trait == "std::iter::Iterator" or re.search(r"slice::<impl \[T\]>::is_sorted_by$", c.res or ""))
+        if not pairwise and (c.name not in _QUANT or c.trait != "std::iter::Iterator"):
+            continue
+        if len(c.args) != 2 or b.is_cleanup(c.bb):
             continue
         a = K.arg_terms(c)
-        shape = _receiver_shape(f, a[0])
+        srcs = _sources(f, a[0])
         ct = strip(a[1])
-        if shape is None or ct[0] != "closure":
+        if not srcs or ct[0] != "closure":
             continue
-        elem = "‹e›"
-        lit = lit_for(shape, elem, None)
+        if pairwise:
+            # `list.is_sorted_by(|p, n| ..)`: true iff the closure holds for every adjacent pair — the pairs of `zip`
+            if srcs != [("each", "‹e›")]:
+                continue
+            srcs = [("zip", "‹e›")]
+        # the source this obligation is about (what else the iteration runs over only adds conditions)
+        shape, elem = srcs[0]
+        lit = None
+        for shape, elem in srcs:
+            lit = lit_for(shape, elem, None)
+            if lit is not None:
+                break
         if lit is None:
             det["sites"].append({"at": c.where(), "form": c.name, "over": shape, "problem": "this iteration cannot establish the fact"})
             continue
@@ -622,8 +695,15 @@ def _forall_deltas(f, b, lit_for, need_update=None):
             continue
         if cb.arg_count >= 2 and not cb.local_name(2):
             m[("param", "_2")] = elem           # destructuring parameter pattern (`|(a, b)|`): the parameter has no name
+        cname = "all" if pairwise else c.name
+        if pairwise:
+            if cb.arg_count != 3:
+                continue
+            m.pop(("param", cb.local_name(2)), None)
+            m[("param", cb.local_name(2) or "_2")] = elem + ".0"
+            m[("param", cb.local_name(3) or "_3")] = elem + ".1"
         with _symmod.substituting(m):
-            ok1, d1 = _OL.implies(cb, _Sym(cb), _QUANT[c.name], lit)
+            ok1, d1 = _OL.implies(cb, _Sym(cb), _QUANT[cname], lit)
         if not ok1:
             det["sites"].append({"at": c.where(), "form": "%s(closure) over %s" % (c.name, shape), "closure": cb.name,
                                  "closure_can_pass_without_the_test": d1})
@@ -631,7 +711,7 @@ def _forall_deltas(f, b, lit_for, need_update=None):
         if c.dest is None or c.dest["p"]:
             continue
         call_text = render(strip_deep(sy.call(b.term(c.bb), c.bb)))
-        sites.append((c.bb, c.name, call_text))
+        sites.append((c.bb, cname, call_text))
         det["sites"].append({"at": c.where(), "form": "%s(closure) over %s" % (c.name, shape), "closure": "ok"})
 
     def comb_edges(bd, s, bb):
@@ -720,11 +800,11 @@ def _forall_deltas(f, b, lit_for, need_update=None):
 
     def guard_fn(bd, s, bb):
         out = []
-        e = variant_edge(bd, s, bb, r"^self\.deltas$", 1)
+        e = variant_edge(bd, s, bb, r"^self\.%s$" % re.escape(_deltas_field(f)), 1) if about_list else None
         if e:
             out += e
         t = bd.term(bb)
-        if t["t"] == "switch" and t.get("dty") == "bool":
+        if about_list and t["t"] == "switch" and t.get("dty") == "bool":
             at = bool_atom(s.operand(t["discr"]))
             if at and isinstance(at[0], tuple) and at[0][2] == "is_empty" and len(at[1]) == 1 and _is_delta_list(f, at[1][0]):
                 fe, te = switch_bool_edges(bd, bb)
